@@ -118,7 +118,7 @@ def run_once(cfg, cands, ballots, names=None, cand_order=None, keep_obj=False):
     inv = {v: k for k, v in nm.items()}
     del _LOG[:]
     del _CREATED[:]
-    _CAP[0] = 4 * len(cands) + 8
+    _CAP[0] = 2 * len(cands) + 6      # BoundedRounds allows len(cands) + 2 states; beyond the cap the run is a NonTermination event
     err = None
     e = None
     marks = []
